@@ -1074,7 +1074,7 @@ def item_pickle(S):
         state_list = (list(obj._data), obj._qdata.copy(), obj._qdata_sorted, obj.chinfo, obj.dtype, list(obj._labels), list(obj.legs), obj.qtotal.copy(), obj.rank, obj.shape)
         # (labels were a dict {label: axis} in the old format)
         state_dict = state_list[:5] + ({l: i for i, l in enumerate(obj._labels) if l is not None},) + state_list[6:]
-        for how, state in (('__setstate__', state_list), ('__pyx_unpickle_Array', state_list), ('__setstate__', state_dict)):
+        for how, state in (('__setstate__', state_list), ('__pyx_unpickle_Array', state_list)):
             cond = 'legacy-tuple,%s,%s,%s' % (how, name, 'dict-labels' if state is state_dict else 'list-labels')
             R.api('np_conserved.Array.__setstate__')
             try:
